@@ -313,6 +313,77 @@ func checkUpdate(r *Run, p *Prog, ptrField *types.Var) {
 		if hasOverlap {
 			// the fact "no overlap with this neighbour" holds where the condition is false
 			tests = append(tests, nb{map[edge]bool{{b, neg ^ 1}: true}, types.ExprString(cond)})
+			continue
+		}
+		// both neighbour tests moved into a package-local helper that is handed p.TimeRange
+		// and answers true exactly behind an OverlapsWith(<that parameter>) test
+		if call, ok := ast.Unparen(def).(*ast.CallExpr); ok {
+			h := p.ByObj[CalleeFunc(fn, call)]
+			if h == nil || h.Body == nil || h.Pkg != fn.Pkg {
+				continue
+			}
+			var trParam types.Object
+			for i, a := range call.Args {
+				if f, ok := isFieldOfObj(fn, a, pObj); ok && f == "TimeRange" {
+					trParam = paramObj(h, i)
+				}
+			}
+			if trParam == nil {
+				continue
+			}
+			hc := p.CFG(h)
+			nConds := 0
+			ov := map[edge]bool{}
+			for _, hb := range hc.G.Blocks {
+				hcond := Cond(hb)
+				if hcond == nil {
+					continue
+				}
+				has := false
+				for _, cj := range conjuncts(hcond) {
+					if isOverlapsWithCall(h, cj, func(a ast.Expr) bool { return objOf(h, a) == trParam }) {
+						has = true
+					}
+				}
+				if has {
+					nConds++
+					ov[edge{hb, 0}] = true
+				}
+			}
+			_, hv := hc.ReachAvoiding([]Point{hc.Entry()}, ov, nil)
+			valid := nConds >= 2
+			for _, ex := range hc.Exits() {
+				if ex.Return == nil || len(ex.Return.Results) == 0 {
+					valid = false
+					continue
+				}
+				last := ast.Unparen(ex.Return.Results[len(ex.Return.Results)-1])
+				id, isID := last.(*ast.Ident)
+				switch {
+				case isID && id.Name == "false":
+				case isID && id.Name == "true":
+					if hv[ex.P] {
+						valid = false // "conflict" without an overlap test having succeeded is fine for safety, but then the false edge proves nothing either way; keep it strict
+					}
+				default:
+					valid = false
+				}
+			}
+			// a "false" answer must mean that no overlap test succeeded: false-returns are only
+			// reachable avoiding the overlap edges
+			if valid {
+				for _, ex := range hc.Exits() {
+					last := ast.Unparen(ex.Return.Results[len(ex.Return.Results)-1])
+					if id, isID := last.(*ast.Ident); isID && id.Name == "false" && !hv[ex.P] {
+						valid = false
+					}
+				}
+			}
+			if valid {
+				for i := 0; i < nConds; i++ {
+					tests = append(tests, nb{map[edge]bool{{b, neg ^ 1}: true}, fmt.Sprintf("%s (neighbour test #%d in %s)", types.ExprString(cond), i+1, h.Name)})
+				}
+			}
 		}
 	}
 	r.ObTrivial("C03.R2.update", "neighbour tests in index.update use OverlapsWith(p.TimeRange)", p.Position(fn.Pos()), len(tests) >= 2, fmt.Sprintf("%d condition(s) derived from TimeRange.OverlapsWith(p.TimeRange) found (previous and next neighbour expected)", len(tests)))
